@@ -6,6 +6,7 @@ import (
 	"encoding/json"
 	"fmt"
 	"math/rand"
+	"net/url"
 	"servitor/object"
 	"servitor/pub"
 	"strings"
@@ -77,24 +78,31 @@ func init() {
 		}
 		o := object.Object(doc)
 		out := map[string]any{}
+		/* the id the object was fetched under (what FetchUnknown would hand on), when it has one */
+		var id *url.URL
+		if raw, ok := doc["id"].(string); ok && B(op, "withid") {
+			if u, err := url.Parse(raw); err == nil {
+				id = u
+			}
+		}
 		var t pub.Tangible
 		switch S(op, "as") {
 		case "post":
-			p, err := pub.NewPostFromObject(o, nil)
+			p, err := pub.NewPostFromObject(o, id)
 			if err != nil {
 				t = pub.NewFailure(err)
 			} else {
 				t = p
 			}
 		case "actor":
-			a, err := pub.NewActorFromObject(o, nil)
+			a, err := pub.NewActorFromObject(o, id)
 			if err != nil {
 				t = pub.NewFailure(err)
 			} else {
 				t = a
 			}
 		case "activity":
-			a, err := pub.NewActivityFromObject(o, nil)
+			a, err := pub.NewActivityFromObject(o, id)
 			if err != nil {
 				t = pub.NewFailure(err)
 			} else {
@@ -156,7 +164,7 @@ func fuzzValue(r *rand.Rand, g *docGen, key string, depth int) any {
 	case "published", "updated":
 		return pick(r, []string{"2024-01-02T03:04:05Z", "2020-05-06T07:08:09+02:00", "yesterday", "", "2999-01-01T00:00:00Z", "0001-01-01T00:00:00Z"})
 	case "id":
-		return pick(r, []any{nil, "https://h.example/x", "://", 5})
+		return pick(r, []any{nil, "https://h.example/x", "https://h.example/x", "https://127.0.0.1:1/self", "://", 5})
 	case "attributedTo", "audience", "actor":
 		actor := map[string]any{"type": "Person", "name": g.text(2), "preferredUsername": "u"}
 		return pick(r, []any{actor, []any{actor, deadRef, 7}, deadRef, []any{}})
@@ -227,6 +235,6 @@ func genPubFuzz(r *rand.Rand, n int, emit func(Op)) {
 		b, _ := json.Marshal(doc)
 		widths := []any{genWidth(r), pick(r, []int{-50, -5, -1, 0, 1, 2, 3, 4, 5, 8, 80, 300})}
 		numbers := []any{0, 1, 2, 3, -1, pick(r, []int{5, 10, 1 << 31, -(1 << 40), 9223372036854775807, -9223372036854775808})}
-		emit(Op{"op": "pubfuzz", "doc": string(b), "as": as, "widths": widths, "numbers": numbers})
+		emit(Op{"op": "pubfuzz", "doc": string(b), "as": as, "widths": widths, "numbers": numbers, "withid": r.Intn(2) == 0})
 	}
 }
